@@ -1,7 +1,7 @@
 HOOK_COMMITS = []   # no verification hooks in /repo; 'fix:' commits are listed in known_findings.txt
 COMMON_NOTE = "assumed contracts for binary-only libogg and for callees that are proved in their own units or only assumed (listed per unit in evidence); malloc never fails; bounded units (kind B) are labelled and counted separately"
 CLAIMS = {
- "C02": {"text": "Contract proofs of the header unpackers against the decoder's setup invariant (ID header, static codebook, floor 1) and of the half-rate guard; CBMC-generated safety obligations (bounds, pointers, overflow, division, shifts, leaks) hold for all inputs of each function under contract. Partial: the audio-packet consumers (floor/residue inverse, codebook decode, block layer) are not yet under contract.",
+ "C02": {"text": "Contract proofs of the header unpackers against the decoder's setup invariant (ID header, static codebook, floor 1, mapping), of the audio packet entry points (vorbis_synthesis, trackonly, packet_blocksize: mode index in bounds for every bit pattern, no stale PCM pointers on any return) and of the block layer (blockin, pcmout, read, restart, lapout: all indices in bounds for every block-size pair, window history and both rates); CBMC-generated safety obligations (bounds, pointers, overflow, division, shifts, leaks) hold for all inputs of each function under contract. Partial: floor/residue inverse, codebook decode, mapping0_inverse and the look builders are not yet under contract.",
          "note": COMMON_NOTE + "; floor1_unpack is a bounded unit"},
  "C03": {"text": "vorbisfile functions under contract against the handle invariant INV_VF (incl. the position-unset state after a failed seek): accessors, _seek_helper, second stage of open, ov_pcm_seek (table indices, termination of the sample-discard loop), _initial_pcmoffset, ov_read_filter (bounded), _ov_splice (bounded). Partial: page search, header fetch, link bisection and ov_pcm_seek_page are only assumed through callee contracts.",
          "note": COMMON_NOTE + "; termination of loops that wait for the data source is not claimed"},
@@ -35,3 +35,16 @@ NOT_APPLICABLE = {
 PENDING = "no proof unit built yet (DESIGN.md section 6 gives the planned contracts; section 12 says why it was not reached); not claimed rather than propped up with another technique"
 for p in ["C01","C05","C11","C15","C18"]:
     NOT_APPLICABLE[p] = PENDING
+
+CLAIMS["C01"] = {"text": "Partial (bit-exact integer layer only): audio packet header layout (1 type bit, ilog(modes-1) mode bits, two window bits for long blocks only) and mode/block-size selection for every bit pattern; samples made available per block = (bs[lW]/4+bs[W]/4), none for the first block, end/start trimming against the granule position; ID-header and mapping field widths and ranges; template-independent. The float DSP (MDCT, windows, floor curves, VQ values) is not decided: a wrong window coefficient is not detected.",
+         "note": COMMON_NOTE + "; channels <= 2 in the block-layer units (rows as separate objects); window VALUES never used"}
+CLAIMS["C05"] = {"text": "Partial: ID header round trip through the real packer and the real unpacker for every representable info (lemma harness over an executable bit-packer model): accepted, same channels/rate/bitrates/block sizes, consumed to the last byte; decoder-side bit layouts of the mapping set-up and of the audio packet header. Audio packet payload round trip (floor/residue) is not decided.",
+         "note": COMMON_NOTE + "; rt_info is a lemma harness (kind L): real functions composed, bit packer modelled"}
+CLAIMS["C11"] = {"text": "Partial (frame conditions): vorbis_synthesis recycles the block arena exactly once and no return path keeps PCM pointers from before the recycling (a genuine use-after-release was found and fixed); blockin writes only the lapped span and the copied half of each accumulator row (ghost index), a sequence gap forgets position and sample count and nothing else; restart forgets position/sequence/pending samples and makes the next block a first block. The bit-identity of later output is an argument over these frames, not machine-checked.",
+         "note": COMMON_NOTE + "; channels <= 2"}
+CLAIMS["C15"] = {"text": "Partial: control interface under contract for every request number (documented codes, SET after set-up final refused with nothing changed, RATEMANAGE2_SET lets through exactly the combinations the bitrate manager's invariant needs, clamps, GET changes nothing, NULL info refused); template look-up proved against the real static tables for all (channels, rate, request incl. NaN/inf) - thorough tier; a genuine out-of-range base setting was found, replayed and fixed. Memory safety of the psychoacoustic set-up and analysis path is not decided (float-derived indices).",
+         "note": COMMON_NOTE + "; arg valid for requests that dereference it without a NULL test"}
+CLAIMS["C18"] = {"category": "other", "text": "Partial: (1) supporting static fact over the goto programs of all 22 translation units: every object with static storage duration is const or never assigned / address-taken by any function; (2) frame conditions: the assigns clauses of the block-layer and packet-header units name only objects reachable from the parameters and are proved by the write-set instrumentation. Threads themselves are not modelled; reads of uninitialised memory are not checked.",
+         "note": "static scan is a symbol-table/goto-program scan, not a contract proof; the data-race-freedom argument over frames + no mutable statics is written in DESIGN.md, not machine-checked"}
+for p in ["C01","C05","C11","C15","C18"]:
+    NOT_APPLICABLE.pop(p, None)
